@@ -126,6 +126,9 @@ func runC16(c *Ctx) {
 		c16Sequence(c, sh, dir, i, fixed, pool)
 	}
 	c16Exhaust(c, sh, filepath.Join(scratch, "exhaust"), fixed)
+	for i := 0; i < c.pick(8, 60); i++ {
+		c16ScanDuringRemoval(c, filepath.Join(scratch, fmt.Sprintf("scanrm%d", i)), i, pool)
+	}
 	if !immutableProbe.ok {
 		c.rep.Notes = append(c.rep.Notes, "immutable-directory faults (rename/remove failures) not available on this platform; those branches were exercised in the model only")
 	}
@@ -552,4 +555,87 @@ func c16Sequence(c *Ctx, sh *shard, dir string, seq int, fixed bool, pool [][]by
 		c.violation(sig, goViolation, desc)
 	}
 	c.rep.TracesValidated++
+}
+
+// c16ScanDuringRemoval: the directory scan is an iterator, so its caller can act between two yields. Several
+// committed files; at the k-th yield a committed file that has not been yielded yet is tombstoned (directly or
+// through Update). The scan goes on: no error, and every file that was committed and never tombstoned is
+// yielded exactly once (the removed one may or may not appear). Judged on the Go side; the scan of the model is
+// one step.
+func c16ScanDuringRemoval(c *Ctx, dir string, idx int, pool [][]byte) {
+	defer func() {
+		if r := recover(); r != nil {
+			c.mismatch("harness-panic", fmt.Sprintf("scan-during-removal %d: %v", idx, r), nil)
+		}
+		os.RemoveAll(dir)
+	}()
+	ctx := context.Background()
+	os.RemoveAll(dir)
+	must(os.MkdirAll(dir, 0o755))
+	st := bs.NewFileSystemDataStore(dir)
+	n := 4 + c.intn(4)
+	committed := map[string]bool{}
+	for i := 0; i < n; i++ {
+		w, ptr, err := st.CreateFile(ctx)
+		must(err)
+		_, err = w.Write(pool[c.intn(len(pool))])
+		must(err)
+		must(w.Close())
+		committed[string(ptr)] = true
+	}
+	at := c.intn(n - 1) // the yield at which the removal happens
+	viaUpdate := idx%2 == 1
+	yielded := map[string]int{}
+	removed := ""
+	var scanErr error
+	k := 0
+	for f, err := range st.GetMaybeFilesForQuery(ctx, nil) {
+		if err != nil {
+			scanErr = err
+			continue
+		}
+		yielded[string(f.PointerBytes)]++
+		if k == at {
+			var rest []string
+			for p := range committed {
+				if yielded[p] == 0 {
+					rest = append(rest, p)
+				}
+			}
+			sort.Strings(rest)
+			if len(rest) > 0 {
+				removed = rest[c.intn(len(rest))]
+				if viaUpdate {
+					must(st.Update(ctx, nil, []bs.DeleteOperation{{FilePointerBytes: []byte(removed)}}))
+				} else {
+					must(st.TombstoneFile(ctx, []byte(removed)))
+				}
+			}
+		}
+		k++
+	}
+	desc := map[string]any{"kind": "scan-during-removal", "files": n, "removed_at_yield": at, "via_update": viaUpdate, "removed": filepath.Base(removed)}
+	var problems []string
+	if scanErr != nil {
+		problems = append(problems, "the scan reported an error: "+scanErr.Error())
+	}
+	for p := range committed {
+		if p == removed {
+			continue
+		}
+		if yielded[p] != 1 {
+			problems = append(problems, fmt.Sprintf("%s (committed, never tombstoned) was yielded %d times", filepath.Base(p), yielded[p]))
+		}
+	}
+	for p := range yielded {
+		if !committed[p] {
+			problems = append(problems, fmt.Sprintf("%s was yielded but never committed", filepath.Base(p)))
+		}
+	}
+	c.count([]string{"C16"}, fmt.Sprintf("scanrm %d %d %d %v", idx, n, at, viaUpdate), removed != "", desc)
+	c.dist("c16_scan_during_removal", fmt.Sprintf("via_update=%v removed=%v", viaUpdate, removed != ""))
+	if len(problems) > 0 {
+		sort.Strings(problems)
+		c.violation("c16-scan-during-removal", fmt.Sprintf("scan with a tombstone of a not yet yielded file at yield %d: %s", at, strings.Join(problems, "; ")), desc)
+	}
 }
